@@ -42,6 +42,7 @@ HOLDER OR OTHER PARTY HAS BEEN ADVISED OF THE POSSIBILITY OF SUCH DAMAGES.
 #include <string>
 #include <memory>
 #include <mutex>
+#include <type_traits>
 
 #include <Poco/DateTime.h>
 #include <Poco/Net/SocketAddress.h>
@@ -625,10 +626,14 @@ inline bool get_value(const std::string& source)
 template<typename T>
 T fast_atoi(const char *str, const char term='\0')
 {
-	T retval(0);
+	using U = typename std::make_unsigned<T>::type;
+	const bool neg(std::is_signed<T>::value && *str == '-');
+	if (neg)
+		++str;
+	U retval(0);
 	for (; *str != term; ++str)
-		retval = (retval << 3) + (retval << 1) + *str - '0';
-	return retval;
+		retval = static_cast<U>((retval << 3) + (retval << 1) + static_cast<U>(*str - '0'));
+	return static_cast<T>(neg ? static_cast<U>(U(0) - retval) : retval);
 }
 
 //----------------------------------------------------------------------------------------
